@@ -7,7 +7,7 @@
    run loop.  Go's channel (capacity 1 = one-slot option) and sync.Mutex (atomic sections)
    semantics are assumed by the model. *)
 From Eino Require Import Base.Util Model.TaskMgr Model.Confluence Model.EagerSkip Model.RunHandoff.
-From Eino Require Import Proofs.TaskMgr Proofs.TaskMgrProgress Proofs.TaskMgrTrace Proofs.Confluence Proofs.Eager Proofs.HandoffOrder Proofs.TaskMgrComplete Proofs.RunHandoff Proofs.RunHandoffOrder Proofs.RunHandoffLive Proofs.RunHandoffLiveBatch Proofs.EagerSkip.
+From Eino Require Import Proofs.TaskMgr Proofs.TaskMgrProgress Proofs.TaskMgrTrace Proofs.Confluence Proofs.Eager Proofs.HandoffOrder Proofs.TaskMgrComplete Proofs.TaskMgrOrders Proofs.RunHandoff Proofs.RunHandoffOrder Proofs.RunHandoffLive Proofs.RunHandoffLiveBatch Proofs.RunHandoffSched Proofs.EagerSkip.
 From Coq Require Import Permutation.
 
 (* ---- every finished task is in exactly one of l / done / the collector's hands / collected;
@@ -49,6 +49,18 @@ Theorem tm_all_collected_when_drained : forall s, reach s -> drained s ->
   Permutation (map fst (collected s)) (map fst (epcs s)).
 Proof. intros s R. exact (drained_all_collected s (inv_reach s R)). Qed.
 Print Assumptions tm_all_collected_when_drained.
+
+(* every completion order can occur: the tasks [sub] are submitted in this order; for EVERY
+   permutation [col] of them there is a run of the protocol at the end of which waitAll has handed
+   them back in exactly the order [col] - the permutation of tm_progress is an arbitrary one, so the
+   quantification of batch_order_independent over all permutations of every step is exactly what the
+   protocol requires, and "every interleaving" is not about a protocol that is secretly FIFO *)
+Theorem tm_every_order_possible : forall sub col : list (task * bres),
+  NoDup (map fst sub) -> Permutation sub col ->
+  exists s, reach s /\ drained s /\ map fst (epcs s) = map fst sub /\
+            rev (collected s) = map (fun x => (fst x, err_of (snd x))) col.
+Proof. exact every_order_possible. Qed.
+Print Assumptions tm_every_order_possible.
 
 (* waitOne (eager mode): a wait that has started returns exactly one more task *)
 Theorem tm_progress_one : forall s, reach s -> cp s = CWait ->
@@ -404,6 +416,18 @@ Example run_batch_no_hang_nonvacuous :
   NoDup (map n_id g_demo) /\ NoDup (map fst (snd (batch (fun l => l) Dag g_demo 20))) /\
   NoDup (map fst (snd (batch (fun l => l) Pregel g_demo 20))).
 Proof. vm_compute. repeat split; repeat constructor; simpl; intuition discriminate. Qed.
+
+(* the composed system exhibits every schedule of the functional eager model: for every [pick]
+   there is a path - an interleaving of executors, collector and run loop - that returns exactly what
+   [eager pick] returns, with the same executions and the same tasks left in flight.  So the
+   theorems about all paths cover every completion order, and the schedules the correspondence
+   evaluates (pick_ok, pick_first, pick_seq) are paths of the composed system *)
+Theorem run_eager_every_schedule_realised : forall g F pick fuel out log lft,
+  NoDup (map n_id g) -> ~ In START (map n_id g) ->
+  eager pick g fuel = (out, log, lft) -> out <> OFuel ->
+  exists s r, creach false Dag g F (s, r) /\ r_res r = Some out /\ r_log r = log /\ ids_of (r_run r) = lft.
+Proof. intros g F pick fuel out log lft Hnd Hs. exact (every_schedule_realised g Hnd Hs F pick fuel out log lft). Qed.
+Print Assumptions run_eager_every_schedule_realised.
 
 (* non-vacuity: an eager path that returns END's value and leaves task 4 in flight; a batch path in
    which the step is collected in the order 4, 3 and that returns the canonical result *)
